@@ -39,12 +39,27 @@ type RecTape struct {
 	// PSwitch1024 is the probability (in 1/1024) that a "sched" draw is a uniform choice rather
 	// than 0 (keep running the current goroutine).
 	PSwitch1024 int
+	// PCT mode (probabilistic concurrency testing): every goroutine gets a random priority when it is
+	// first seen, the runnable goroutine with the highest priority runs, and at random change points the
+	// running goroutine drops to the lowest priority. This starves individual goroutines for long
+	// stretches, which uniform switching practically never does.
+	PCT      bool
+	prio     map[int]uint64
+	lowNext  uint64
+	changeIn int
 }
 
 func NewRandomTape(seed uint64) *RecTape {
 	r := NewRng(seed)
 	ps := []int{20, 60, 150, 300, 600, 1024}
-	return &RecTape{rng: r, PSwitch1024: ps[r.Intn(len(ps))]}
+	t := &RecTape{rng: r, PSwitch1024: ps[r.Intn(len(ps))]}
+	if r.Intn(2) == 1 {
+		t.PCT = true
+		t.prio = map[int]uint64{}
+		t.lowNext = 1 << 20
+		t.changeIn = 1 + r.Intn(200)
+	}
+	return t
 }
 
 func NewReplayTape(vals []int) *RecTape {
@@ -73,4 +88,32 @@ func (t *RecTape) Choose(kind string, n int) int {
 	}
 	t.Rec = append(t.Rec, v)
 	return v
+}
+
+// ChooseSched picks among the runnable goroutines ids (ids[0] is the goroutine that ran last if it
+// is still runnable). Replay uses the recorded index; random mode uses the run's policy.
+func (t *RecTape) ChooseSched(ids []int, lastRunnable bool) int {
+	n := len(ids)
+	if t.pos < len(t.Prefix) || t.Strict || t.rng == nil || !t.PCT {
+		return t.Choose("sched", n)
+	}
+	for _, id := range ids {
+		if _, ok := t.prio[id]; !ok {
+			t.prio[id] = (1 << 21) + t.rng.Next()%(1<<40)
+		}
+	}
+	t.changeIn--
+	if t.changeIn <= 0 && lastRunnable {
+		t.lowNext--
+		t.prio[ids[0]] = t.lowNext
+		t.changeIn = 1 + t.rng.Intn(400)
+	}
+	best := 0
+	for i, id := range ids {
+		if t.prio[id] > t.prio[ids[best]] {
+			best = i
+		}
+	}
+	t.Rec = append(t.Rec, best)
+	return best
 }
